@@ -98,6 +98,32 @@ def factory_class(name):
     raise ValueError(name)
 
 
+STYLED_DRAWERS = ["square", "gapped", "circle", "rounded", "vbars", "hbars"]
+STYLED_MASKS = ["solid", "radial", "square", "horizontal", "vertical"]
+
+
+def resolve_image_kwargs(fname, kwargs):
+    """Keyword arguments of make_image as they travel in a case (names) ->
+    real objects.  SVG drawers are aliases (strings) and stay as they are."""
+    kw = dict(kwargs)
+    if fname == "styled":
+        from qrcode.image.styles.moduledrawers import pil as pd
+        from qrcode.image.styles import colormasks as cm
+        dcls = {"square": pd.SquareModuleDrawer, "gapped": pd.GappedSquareModuleDrawer,
+                "circle": pd.CircleModuleDrawer, "rounded": pd.RoundedModuleDrawer,
+                "vbars": pd.VerticalBarsDrawer, "hbars": pd.HorizontalBarsDrawer}
+        mcls = {"solid": cm.SolidFillColorMask, "radial": cm.RadialGradiantColorMask,
+                "square": cm.SquareGradiantColorMask,
+                "horizontal": cm.HorizontalGradiantColorMask,
+                "vertical": cm.VerticalGradiantColorMask}
+        for k in ("module_drawer", "eye_drawer"):
+            if isinstance(kw.get(k), str):
+                kw[k] = dcls[kw[k]]()
+        if isinstance(kw.get("color_mask"), str):
+            kw["color_mask"] = mcls[kw["color_mask"]]()
+    return kw
+
+
 def build_object(ctor, segs):
     """Fresh object from the abstract state (reference side, and `new` on the
     aged side).  box_size that the constructor would refuse is assigned after
@@ -159,10 +185,13 @@ def do_op(qr, op):
             qr.print_tty(out=stream)
         elif kind == "image":
             _, fname, kwargs = op
-            img = qr.make_image(factory_class(fname), **dict(kwargs))
+            img = qr.make_image(factory_class(fname), **resolve_image_kwargs(fname, kwargs))
             sink = SimByteSink()
             img.save(sink)
             out = sink.getvalue()
+        elif kind == "make_then":
+            qr.make()
+            return do_op(qr, op[1])
         elif kind == "add_seg":
             apply_seg(qr, op[1])
         elif kind == "noop":
@@ -476,6 +505,13 @@ class Run:
         fp = self.fp(m, opkind)
         if exc != r["exc"]:
             # a fault we injected ourselves is handled by the caller before this
+            if lazy_prop in ("C15", "C16"):
+                # the renderer's own promise ("compiling the symbol first if needed") is
+                # broken too when its implicit compile fails where a fresh object's does
+                # not (or the other way round)
+                self.viol(lazy_prop, f"{lazy_prop}/lazy-compile-outcome-differs",
+                          f"{opkind}: aged object {exc!r}, fresh object {r['exc']!r}", fp,
+                          soft=True)
             self.viol("C11", "C11/error-differs-from-fresh",
                       f"{opkind}: aged object {exc!r}, fresh object {r['exc']!r}", fp)
         if exc is None and aged != r["mods"]:
@@ -720,6 +756,19 @@ class Run:
 
         if need == "yes":
             r = self.ref(m.spec(refop))
+            if prop in ("C15", "C16"):
+                # "compiling the symbol first if needed" means what make() does: the call
+                # must behave like an explicit make() followed by the same call (on a fresh
+                # object) - an absolute check that does not go blind when fresh objects
+                # share a defect of the implicit compile
+                rx = self.ref(m.spec(("make_then", refop)))
+                if (exc, ret, out) != (rx["exc"], rx["ret"], rx["out"]) and injected is None \
+                        and (r["exc"], r["ret"], r["out"]) != (rx["exc"], rx["ret"], rx["out"]):
+                    self.viol(prop, f"{prop}/implicit-compile-differs-from-explicit-make",
+                              f"{opkind} with a compile due gives ({exc!r}, "
+                              f"{core.short_hash(repr((ret, out)))}); make() followed by the "
+                              f"same call on a fresh object gives ({rx['exc']!r}, "
+                              f"{core.short_hash(repr((rx['ret'], rx['out'])))})", fp, soft=True)
             self._compare_compile(qr, m, r, exc, opkind, lazy_prop=prop)
             if exc is None:
                 if m.last_failed:
@@ -980,7 +1029,8 @@ class Run:
 
         def call():
             try:
-                img = qr.make_image(factory_class(fname), **dict(kwargs))
+                img = qr.make_image(factory_class(fname),
+                                    **resolve_image_kwargs(fname, kwargs))
                 img.save(sink)
                 return None, None, sink.getvalue()
             except Exception as e:  # noqa
@@ -1085,6 +1135,8 @@ PAYLOADS = [
     12345, "x" * 60, "9" * 200, "z" * 100, "Z" * 130, b"\xe4\xb8\xad\xe6\x96\x87",
     "line1\nline2", "$%*+-./: 09AZ", "y" * 190, "w" * 220,
 ]
+PAYLOADS += ["ticket-001", "ticket-002", "ticket-003", "ticket-004", "TICKET 01", "TICKET 02",
+             "TICKET 03", "1000001", "1000002", "1000003", b"\x01\x02\x03", b"\x03\x02\x01"]
 BIG_PAYLOADS = ["q" * 600, "7" * 3000, "Q" * 1500, b"\x80" * 1300, "p" * 2900, "5" * 7089,
                 "5" * 7090, "p" * 2953, "p" * 2954]
 QDATA = [("a", MODE_BYTE), ("123", MODE_NUMBER), ("123", MODE_ALNUM), ("123", MODE_BYTE),
@@ -1219,6 +1271,16 @@ def gen_op(rng, kind, obj, pool, tier, focus):
              "svg" if r < 0.6 else "svgpath" if r < 0.75 else "svgfrag" if r < 0.92 else
              "styled")
         op = {"op": "image", "obj": obj, "factory": f}
+        if f == "styled" and rng.random() < 0.7:
+            kw = {"module_drawer": rng.choice(STYLED_DRAWERS)}
+            if rng.random() < 0.4:
+                kw["eye_drawer"] = rng.choice(STYLED_DRAWERS)
+            if rng.random() < 0.3:
+                kw["color_mask"] = rng.choice(STYLED_MASKS)
+            op["kwargs"] = kw
+        elif f in ("svg", "svgpath") and rng.random() < 0.3:
+            op["kwargs"] = {"module_drawer": rng.choice(["circle", "gapped-circle",
+                                                         "gapped-square"])}
         if rng.random() < 0.25:
             op["fail_write_at"] = rng.choice([0, 1, 2, 4])
         return op
